@@ -160,7 +160,8 @@ class EndToEnd(NativeCase):
         from .c10 import EDGE_BLOCKS
         optsets = OPTSETS_Q if tier == 'quick' else OPTSETS_T
         n_states = 12 if tier == 'quick' else 48
-        blocks = list(corpus.BASE_BLOCKS) + list(EDGE_BLOCKS) + list(MSIZE_BLOCKS)
+        from .c02 import hash_blocks
+        blocks = list(corpus.BASE_BLOCKS) + list(EDGE_BLOCKS) + list(MSIZE_BLOCKS) + hash_blocks()
         # deterministic pseudo-random blocks (arithmetic / stack / memory / storage mixed); run under the first option sets only
         fuzz = corpus.random_blocks(60 if tier == 'quick' else 1200, seed=17) + corpus.random_blocks(40 if tier == 'quick' else 800, seed=18, profile='memory')
         shared = corpus.shared_rule_shape_blocks()
